@@ -160,6 +160,17 @@ def replay(prop, path):
         if bad:
             print("VIOLATION property=%s replay=%s" % (prop, path))
         return 1 if bad else 0
+    if rp["unit"] == "bounded:acknowledgement-agrees-with-the-store":
+        ex = rp["instances"][0].get("example", {})
+        env = dict(os.environ)
+        env["PYTHONPATH"] = ROOT
+        p = subprocess.run([sys.executable, os.path.join(ROOT, "bounded", "ack_enum.py"), "--backend", ex.get("backend", "sql")], env=env, capture_output=True, text=True)
+        print(p.stdout[-2000:])
+        listed = {f["bounded_class"] for f in KNOWN_FINDINGS if f["property"] == prop and f.get("bounded_class") and f.get("status", "open") == "open"}
+        bad = [l for l in p.stdout.splitlines() if l.startswith("FAIL") and not (l.split()[1] == "acknowledged-true-but-not-retrievable" and l.split()[2] in listed)]
+        if bad:
+            print("VIOLATION property=%s replay=%s" % (prop, path))
+        return 1 if bad else 0
     if rp["unit"] == "bounded:role-storage-roundtrip":
         env = dict(os.environ)
         env["PYTHONPATH"] = ROOT
